@@ -6,7 +6,7 @@ every prefix on which no numerical guard is active.
 """
 import numpy as np
 
-from pbv import mm
+from pbv import gen, mm
 from pbv.core import Borderline, Violation, require, subcheck
 
 SUBCHECKS = []
@@ -79,7 +79,7 @@ def _draw(d, kind, max_iter, tied=False):
         return _draw_tied(d, kind, max_iter)
     case = mm.draw_case(
         d, [kind], degenerate=False, general_position=True, max_lead=2,
-        max_K=4, min_K=1, max_D=5, allow_num_classes=False,
+        max_K=4, min_K=1, max_D=8, allow_num_classes=False,
         single_precision=False, allow_aligner=False,
         max_iterations=max_iter, allow_scale=False,
         init_kinds=('dirichlet',), allow_mask=False,
@@ -169,6 +169,20 @@ def _check(d, ctx, kind, max_iter, tied=False):
         else:
             case.emb = case.emb + offset * direction
         case.meta['offset'] = offset
+    if kind == 'cwmm' and not tied and d.aux(24).integers(0, 2) == 0:
+        # overlapping classes of moderate concentration (kappa about 4..25, a
+        # different one per class): the regime in which the E-step depends on
+        # the normaliser of every class, over many iterations
+        aux = d.aux(25)
+        K, N, D = case.K, case.N, case.D
+        modes = gen.unit(gen.cnormal(aux, (*case.lead, K, D)))
+        lab = aux.integers(0, K, size=(*case.lead, N))
+        snr = aux.uniform(4, 25, size=(*case.lead, K))
+        pick = np.take_along_axis(modes, lab[..., None], axis=-2)
+        amp = np.sqrt(np.take_along_axis(snr, lab, axis=-1))[..., None]
+        case.y = pick * amp + gen.cnormal(aux, (*case.lead, N, D)) * np.sqrt(2)
+        case.meta['data'] = 'overlapping-moderate-concentration'
+        case.iterations = int(aux.choice([10, 20, 30]))
     ctx.describe(**case.describe())
     ctx.label(kind, f'wca={case.opts.get("weight_constant_axis")}',
               f'saliency={case.meta.get("saliency")}',
@@ -184,10 +198,10 @@ def _check(d, ctx, kind, max_iter, tied=False):
             ctx.label('guard-active')
             break
         lls.append(oracle_ll(model, case))
-    rel = 1e-7 if kind == 'cwmm' else 1e-9
+    rel = 1e-9
     for i in range(1, len(lls)):
         tol = (rel + total_n * case.K * eps * 50) * (1 + abs(lls[i - 1])) \
-            + (1e-7 * total_n if kind == 'cwmm' else 0.0) \
+            + (1e-9 * total_n if kind == 'cwmm' else 0.0) \
             + total_n * offset * 1e-13     # rounding of y - mean at the offset
         if not np.isfinite(lls[i]) or lls[i] < lls[i - 1] - tol:
             raise Violation(
